@@ -24,7 +24,9 @@ def run(tier, seed):
             if tier == 'quick' and dtype == 'float32' and cell[3].get('grad_free'):
                 continue
             for dt in dts:
-                units.append(dict(cell=list(cell), dtype=dtype, lattice=lattice, dts=[dt], entropy=120 + seed,
+                # the 3/8 runs use a lattice that straddles t = 0 (negative output times, ts[0] < 0 < ts[-1])
+                lat = [t - 0.5 for t in lattice] if dt == 0.375 else lattice
+                units.append(dict(cell=list(cell), dtype=dtype, lattice=lat, dts=[dt], entropy=120 + seed,
                                   aslist=[False, True] if dt in (0.375, 0.125) or tier != 'quick' else [False]))
     chk.count('work_units', len(units))
     chk.count('cells', len(zoo.cells()))
